@@ -10,7 +10,7 @@ vars == <<s>>
 Alts == IF Kind = "variant" THEN {1, 2, 3} ELSE {1}
 Ops == { [name |-> nm, d |-> d, x |-> x, i |-> i] : nm \in Names(Kind), d \in {1, 2}, x \in {0} \cup Values, i \in {0} \cup Alts }
 Canon(op) ==
-  CASE op.name \in {"value", "value_copy", "value_conv", "emplace"} -> op.x \in Values /\ op.i = (IF Kind = "variant" THEN op.i ELSE 0) /\ (Kind = "variant" => op.i \in Alts)
+  CASE op.name \in {"value", "value_with", "value_copy", "value_conv", "emplace"} -> op.x \in Values /\ op.i = (IF Kind = "variant" THEN op.i ELSE 0) /\ (Kind = "variant" => op.i \in Alts)
     [] op.name = "assign_value" -> op.x \in Values /\ op.i = 0
     [] op.name = "error" -> op.x \in Values /\ op.i = 0
     [] op.name \in {"assign_conv", "assign_conv_copy"} -> (op.i = 1 /\ op.x \in Values) \/ (op.i = 0 /\ op.x = 0)
